@@ -412,7 +412,12 @@ impl Future for ProbeCall {
                         w.stats.fn_error += 1;
                         w.log.push(Ev::Return { task: t, inv: i, ok: false, val: m.clone() });
                         let function = w.fns[this.f].name.clone();
-                        Err(anyhow::Error::new(ProbeError { function, msg: m }))
+                        let base = anyhow::Error::new(ProbeError { function, msg: m });
+                        Err(match w.fns[this.f].fail_style {
+                            1 => anyhow::Error::new(reval::Error::UserFunctionError { function: "inner_fn".to_string(), error: base }),
+                            2 => base.context("while probing"),
+                            _ => base,
+                        })
                     }
                 };
                 drop(w);
